@@ -93,7 +93,7 @@ FULL_POOL = ([('ModuleHigh', 0), ('ModuleHigh', 1), ('ModuleHigh', 0), ('ModuleH
 
 
 class World:
-    def __init__(self, pool=FULL_POOL, nfits=2, nss=2, nfl=1, nholders=2, loaded=True):
+    def __init__(self, pool=FULL_POOL, nfits=2, nss=2, nfl=2, nholders=2, loaded=True):
         self.ch, self.types = universe()
         self.decl = []                      # (id, class name, type id)
         self.obj = {}
@@ -662,7 +662,7 @@ def random_histories(rep, rnd, n, length, malformed, where, on_step=None, tag=''
             rep.dist[tag + gtag] += 1
             rep.dist[tag + 'outcome.' + out.replace('err ', '')] += 1
             rep.case(sig=(tuple(ops[-3:]), out) if out != 'ok' or len(ops) > 1 else None,
-                     sample={'history': [World.line(o) for o in ops[-4:]], 'outcome': out} if h == 0 and len(ops) == 8 else None)
+                     sample={'history': [World.line(o) for o in ops[-4:]], 'outcome': out} if h < 4 and len(ops) == 8 else None)
         meta[-1] = (h, len(ops), [World.line(o) for o in ops])
     hist = {m[0]: m[2] for m in meta if m and len(m) == 3}
 
